@@ -375,6 +375,50 @@ def detour(rng, sys_, ops):
         ops.extend([['rmEq', ka], ['addEq', k]])
 
 
+def convert_case(rng):
+    """A system built through the API, then 1-2 unit conversions (convert_variable rewrites the equations through
+    add_equation / remove_equation itself); after each, the edited model must answer as a fresh model with the same
+    variables and equations. Oracle only (the Lean model of C10 has no conversion step; C06 models it)."""
+    s = gen_system(rng)
+    ops = api_ops(rng, s)
+    nv = len(s['vars'])
+    convs = []
+    for _ in range(rng.choice([1, 1, 2])):
+        slot = rng.choice(s['states']) if s['states'] and rng.random() < 0.6 else rng.randrange(nv)
+        convs.append([slot, rng.choice(['in', 'in', 'out']), rng.choice(['c10_pct', 'c10_kilo'])])
+    return {'kind': 'convert', 'vars': s['vars'], 'eqs': s['eqs'], 'ops': ops + [['check']], 'convert': convs}
+
+
+def run_convert(m, latest, convs, rng):
+    from cellmlmanip.model import DataDirectionFlow
+    u = m.units
+    if not u.is_defined('c10_pct'):
+        u.add_unit('c10_pct', 'dimensionless / 100')
+        u.add_unit('c10_kilo', 'dimensionless * 1000')
+    recs = []
+    for slot, direction, unit in convs:
+        v = latest[slot]
+        rec = {'slot': slot, 'dir': direction, 'unit': unit}
+        if v is None or m._name_to_variable.get(v.name) is not v:
+            continue
+        try:
+            m.convert_variable(v, u.get_unit(unit),
+                               DataDirectionFlow.INPUT if direction == 'in' else DataDirectionFlow.OUTPUT)
+            rec['out'] = 'ok'
+        except Exception as e:
+            rec['out'] = 'err:' + type(e).__name__
+        ids2 = {w: i for i, w in enumerate(m.variables())}
+        rec['names'] = [w.name for w in m.variables()]
+        rec['obs'] = observe(m, ids2)
+        try:
+            f, mp = fresh_like(m, rng, shuffle=False)
+            rec['fresh'] = observe(f, {nw: ids2[ow] for ow, nw in mp.items() if ow in ids2})
+        except Exception as e:
+            rec['fresh'] = 'err:' + type(e).__name__
+        recs.append(rec)
+    return recs
+
+
 def c08_case(rng):
     """A random history of the C08 generator over (a translation of) its pool, a check after every call."""
     import props.c08 as c08
@@ -444,8 +488,10 @@ def gen(rng, n, tier):
             for _ in range(rng.choice([1, 1, 2, 3, 4])):
                 detour(rng, s, ops)
             yield {'kind': 'history', 'vars': s['vars'], 'eqs': s['eqs'], 'ops': ops + [['check']]}
-        elif r < 16:
+        elif r < 15:
             yield c08_case(rng)
+        elif r < 16:
+            yield convert_case(rng)
         elif r < 18:
             import docgen
             yield {'kind': 'doc', 'doc': docgen.gen_valid_doc(rng)}
@@ -723,7 +769,10 @@ def run_ops(case, rng):
             except Exception as e:
                 rec['out'] = 'err:' + type(e).__name__
         steps.append(rec)
-    return {'steps': steps}
+    out = {'steps': steps}
+    if case.get('convert'):
+        out['conv'] = run_convert(m, latest, case['convert'], rng)
+    return out
 
 
 def rename(e, f):
@@ -932,8 +981,36 @@ def canon_err(x):
     return 'err' if isinstance(x, str) and x.startswith('err:') else x
 
 
-def oracle(case, obs):
+def oracle_convert(obs):
+    """history independence after convert_variable: the edited model answers as a fresh model with its content"""
     fails = []
+    for k, rec in enumerate(obs.get('conv', [])):
+        o, fr = rec['obs'], rec['fresh']
+        where = 'after convert_variable #%d (%s, %s, slot %s -> %s)' % (k, rec['dir'], rec['unit'], rec['slot'], rec['out'])
+        if isinstance(fr, str):
+            fails.append({'key': 'history-dependence:fresh-build-rejected',
+                          'detail': '%s: a fresh model refuses the content (%s)' % (where, fr)})
+            continue
+        for q in ('states', 'free', 'derivs', 'derived', 'is_state', 'is_const'):
+            if o[q] != fr[q]:
+                fails.append({'key': 'history-dependence:' + q,
+                              'detail': '%s: %s edited model %s, fresh model %s (names %s)' % (where, q, o[q], fr[q], rec['names'])})
+        for va, vb in zip(o['values'], fr['values']):
+            same = va[:2] == vb[:2]
+            if same and va[1] == 'ok':
+                x, y = float(va[2]), float(vb[2])
+                same = (repr(x) == repr(y)) or (math.isfinite(x) and math.isfinite(y) and
+                                                abs(x - y) <= 1e-9 * max(1.0, abs(x), abs(y)))
+            elif same:
+                same = va[2] == vb[2]
+            if not same:
+                fails.append({'key': 'history-dependence:get_value',
+                              'detail': '%s: variable %s edited model %s, fresh model %s' % (where, rec['names'][va[0]], va[1:], vb[1:])})
+    return fails
+
+
+def oracle(case, obs):
+    fails = oracle_convert(obs)
     refs = references(obs)
     for i, st in enumerate(obs['steps']):
         if st['op'] is None or st['op'][0] != 'check':
